@@ -389,7 +389,31 @@ func byteSumOps(fn *ssa.Function) []string {
 	// values derived from a byte element or the accumulator: everything of integer type in this function except loop counters
 	isCounter := func(v ssa.Value) bool {
 		phi, ok := v.(*ssa.Phi)
-		return ok && (strings.Contains(phi.Comment, "rangeindex") || phi.Comment == "i")
+		if !ok {
+			return false
+		}
+		if strings.Contains(phi.Comment, "rangeindex") || phi.Comment == "i" {
+			return true
+		}
+		// an induction variable whatever it is called (also the hidden one of `for i := range n`): every edge that
+		// depends on the phi is the phi plus or minus a constant
+		steps := 0
+		for _, e := range phi.Edges {
+			if bo, isB := e.(*ssa.BinOp); isB && (bo.Op == token.ADD || bo.Op == token.SUB) {
+				_, yc := bo.Y.(*ssa.Const)
+				_, xc := bo.X.(*ssa.Const)
+				if (bo.X == ssa.Value(phi) && yc) || (bo.Op == token.ADD && bo.Y == ssa.Value(phi) && xc) {
+					steps++
+					continue
+				}
+			}
+			if _, isC := e.(*ssa.Const); !isC {
+				if _, isP := e.(*ssa.Parameter); !isP {
+					return false
+				}
+			}
+		}
+		return steps > 0
 	}
 	adds := 0
 	paramCtx := map[*ssa.Parameter]itv{}
